@@ -6,6 +6,7 @@ import (
 	"fmt"
 	"os"
 	"path/filepath"
+	"runtime"
 	"sort"
 	"strconv"
 	"strings"
@@ -67,6 +68,25 @@ func cmdRun(args []string) int {
 		return 2
 	}
 	t0 := time.Now()
+	// memory watchdog: a run that would exhaust memory (path explosion on a mutated tree) ends
+	// as UNDECIDED instead of being killed by the kernel
+	go func() {
+		limit := uint64(24) << 30
+		if v := os.Getenv("VERIF_MEM_GB"); v != "" {
+			if n, err := strconv.Atoi(v); err == nil {
+				limit = uint64(n) << 30
+			}
+		}
+		for {
+			time.Sleep(2 * time.Second)
+			var ms runtime.MemStats
+			runtime.ReadMemStats(&ms)
+			if ms.Sys > limit {
+				fmt.Printf("UNDECIDED: memory budget of %d GiB exceeded (path explosion); no verdict\n", limit>>30)
+				os.Exit(2)
+			}
+		}
+	}()
 	insts := def.Instances(tier)
 	sort.SliceStable(insts, func(i, j int) bool { return insts[i].Weight > insts[j].Weight })
 	kf := loadKnown()
@@ -167,6 +187,10 @@ func cmdRun(args []string) int {
 		}
 		for _, e := range hr.Unwinds {
 			undecided = append(undecided, "unwinding failure in "+o.inst.Label()+": "+e)
+		}
+		if hr.EndCounts["return"] == 0 && len(hr.Findings) == 0 && len(hr.Errors) == 0 {
+			// vacuity guard: an instance whose assumptions exclude every input proves nothing
+			undecided = append(undecided, "vacuous instance (no path reaches the end of the harness): "+o.inst.Label())
 		}
 		for id, n := range hr.AssertsUnk {
 			undecided = append(undecided, fmt.Sprintf("solver unknown on %s x%d in %s", id, n, o.inst.Label()))
